@@ -13,6 +13,7 @@ CONFIGS = {
     "Q2q": dict(W=2, sfx="Q2q"),
     "Q2b": dict(W=2, sfx="Q2b"),
     "Q2":  dict(W=2, sfx="Q2"),
+    "Q2m": dict(W=2, sfx="Q2m"),
     "Q6":  dict(W=1, sfx="Q6"),
     "Q6b": dict(W=1, sfx="Q6b"),
     "Q6c": dict(W=1, sfx="Q6c"),
